@@ -27,6 +27,6 @@ t0 = time.time()
 st = smt.discharge(allg, timeout_s=a.timeout)
 print(st, 'wall %.1fs' % (time.time() - t0), 'goals', len(allg), 'discharged', sum(g.status == 'unsat' for g in allg))
 for g in allg:
-    if g.status != 'unsat': print('  OPEN', g.status, g.name, 'line', g.line, getattr(g, 'reason', ''))
+    if g.status != 'unsat': print('  OPEN', g.status, g.name, 'line', g.line, getattr(g, 'reason', ''), getattr(g, 'trace', '')[-8:])
 for g in sorted(allg, key=lambda g: -g.time)[:8]:
     print('  SLOW %.1fs %s %s' % (g.time, g.solver, g.name))
